@@ -290,6 +290,30 @@ func c04Case(w *core.Worker, i int) {
 		}
 		checkBuckets("groupby", q, buckets)
 	}
+	// 1b. aggregates over the grouping columns themselves (the NULL bucket counts no value)
+	{
+		var cks []string
+		for _, kn := range names[:nk] {
+			cks = append(cks, "COUNT("+kn+")")
+		}
+		q := "SELECT LISTAGG(id, ' ') AS ids, " + strings.Join(cks, ", ") + " FROM t GROUP BY " + keyList
+		if v := run(q); v != nil && n > 0 {
+			for _, row := range v.Rows {
+				ids := parseIDs(row[0])
+				for j := 0; j < nk; j++ {
+					want := 0
+					for _, id := range ids {
+						if id >= 1 && id <= n && t.Rows[id-1][1+j] != nil {
+							want++
+						}
+					}
+					if row[1+j].S != strconv.Itoa(want) {
+						viol("aggregate:count-of-key", q, fmt.Sprintf("bucket of rows %v: COUNT(%s) = %s, the bucket holds %d non-NULL values", ids, names[j], row[1+j].S, want))
+					}
+				}
+			}
+		}
+	}
 	// 2. PARTITION BY
 	q = "SELECT id, COUNT(id) OVER (PARTITION BY " + keyList + ") AS c, LISTAGG(id, ' ') OVER (PARTITION BY " + keyList + ") AS ids, SUM(v) OVER (PARTITION BY " + keyList + ") AS sv FROM t"
 	if v := run(q); v != nil && n > 0 {
